@@ -19,11 +19,25 @@
     gdec t media magic fn · godec t media magic fn · genc t fn · goenc t fn     (regenerated registry, pipecmd fallbacks)
     stmts src tgt quad;quad;…                                    (adapters; blank nodes are labels)
     run quads ascii h src quad;quad;…                            (h = strf | bnf | nil; whole pipe into nq/nt)
+  Option plumbing (builder-c18b); params = `-` or `hex,hex,…` (the raw `--out-param` strings, UTF-8):
+    encbase name base                                            → `EncoderOptions.BaseIRI` the manager sees
+    nqascii params                                               → 0 | 1 | err
+    ttlopt params base                                           → err | <base|->;<prefixes>;<buffered 0/1>;<resources 0/1>
+    nqp quads params h src quads                                 → openerr | as `run`
+    ttl params base ordered h src quads                          → ok:x<hex> | openerr | werr | panic | outside | bad-order
+                                                                   (`ordered` as in Driver/TtlEnc.lean; with `resources` the two
+                                                                   documents for the subject map iterated in insertion and in
+                                                                   reverse order, joined by `|` when they differ)
+    rj params h src quads                                        → ok:<tokens of Driver/RdfJson.lean> | openerr | werr | outside
 -/
 import RdfModel.Driver.Wire
 import RdfModel.Model.Pipe
 import RdfModel.Gen.NQTables
 import RdfModel.Gen.RegistryFacts
+import RdfModel.Gen.TtlTables
+import RdfModel.Gen.PipeCfgFacts
+import RdfModel.Driver.TtlEnc
+import RdfModel.Driver.RdfJson
 namespace RdfModel.Driver.Pipe
 open RdfModel RdfModel.Wire RdfModel.Pipe
 
@@ -112,6 +126,84 @@ def showBytesQuad (q : Quad BN.Bytes) : String :=
 /-- process state with the decoder's string factory allocated (`strf 0` over `bnf 0`) -/
 def s0 : BN.State := (BN.step BN.driverU (BN.init 0) .newStringFactory).1
 
+def parseParams (s : String) : Option (List (List Nat)) :=
+  (splitNonEmpty s ",").mapM (fun h => (unhex h).map utf8Decode)
+
+def parseH (h : String) : Option (Option BN.FactoryRef) :=
+  if h = "strf" then some (some (BN.FactoryRef.strf 0))
+  else if h = "bnf" then some (some (BN.FactoryRef.bnf 0))
+  else if h = "nil" then some none else none
+
+def showMappings (ms : List Prefix.Mapping) : String :=
+  if ms.isEmpty then "-" else String.intercalate "," (ms.map (fun m => hexRunes m.pfx ++ "=" ++ hexRunes m.expanded))
+
+def showOut : Pipe.OutResult → String
+  | .ok doc => "ok:" ++ tokOfRunes doc
+  | .openErr => "openerr"
+  | .writeErr => "werr"
+  | .panic => "panic"
+  | .outside => "outside"
+
+/-- the labelled triples the Turtle encoder receives (to compute the subject order of the export) -/
+def labelledTriples (h : Option BN.FactoryRef) (src : Kind) (qs : List (Quad BN.Node)) : List (Desc.Triple BN.Bytes) :=
+  match pipeProvider BN.driverU s0 h with
+  | (s1, some p) =>
+    match (labelQuads BN.driverU p s1 (pipeStatements src .triples qs)).2 with
+    | some lqs => (toTriples lqs).getD []
+    | none => []
+  | _ => []
+
+def handleCfg (op : String) (args : List String) : Option String :=
+  match op, args with
+  | "encbase", [n, b] => do
+    pure (tokOfRunes (encoderBase { name := ← runesTok n, base := ← runesTok b }))
+  | "nqascii", [ps] => do
+    match nqAscii (← parseParams ps) with
+    | some b => pure (if b then "1" else "0")
+    | none => pure "err"
+  | "ttlopt", [ps, b] => do
+    match ttlOptions Gen.PipeCfgFacts.rdfaContext (← parseParams ps) (← runesTok b) with
+    | none => pure "err"
+    | some (cfg, res) =>
+      pure ((match cfg.base with | some b => tokOfRunes b | none => "-") ++ ";" ++ showMappings cfg.prefixes ++ ";" ++
+        (if cfg.buffered = some true then "1" else "0") ++ ";" ++ (if res then "1" else "0"))
+  | "nqp", [quads, ps, h, src, qs] => do
+    let qs ← parseQuadsWith parseNodeTerm qs
+    let quads := quads = "1"
+    let T := if quads then Gen.nquads else Gen.ntriples
+    match pipeNQp T quads (← parseParams ps) BN.driverU s0 (← parseH h) (← parseKind src) qs with
+    | none => pure "openerr"
+    | some (.ok doc) => pure ("ok:" ++ tokOfRunes doc)
+    | some (.writeErr k doc) => pure ("werr:" ++ toString k ++ ":" ++ tokOfRunes doc)
+    | some .outside => pure "outside"
+  | "ttl", [ps, b, ordered, h, src, qs] => do
+    let qs ← parseQuadsWith parseNodeTerm qs
+    let ps ← parseParams ps
+    let b ← runesTok b
+    let h ← parseH h
+    let src ← parseKind src
+    let ord ← TtlEnc.parseList TtlEnc.parseMapping "," ordered
+    match ttlOptions Gen.PipeCfgFacts.rdfaContext ps b with
+    | none => pure "openerr"
+    | some (cfg, _) =>
+      let pm0 := Prefix.new Prefix.mergeSorter cfg.prefixes
+      if !(TtlEnc.lenSorted ord && TtlEnc.isPermOf ord pm0.ordered) then pure "bad-order"
+      else
+        let subj := (Desc.build (labelledTriples h src qs)).subjects
+        let run (o : List (Term BN.Bytes)) : String :=
+          showOut (pipeTtlWith Gen.turtle Gen.PipeCfgFacts.rdfaContext (fun _ => ⟨ord, pm0.byPrefix⟩) ps b o o BN.driverU s0 h src qs)
+        let a := run subj
+        let r := run subj.reverse
+        pure (if a = r then a else a ++ "|" ++ r)
+  | "rj", [ps, h, src, qs] => do
+    let qs ← parseQuadsWith parseNodeTerm qs
+    match pipeRJ (← parseParams ps) BN.driverU s0 (← parseH h) (← parseKind src) qs with
+    | .ok toks => pure ("ok:" ++ RdfJson.showToks toks)
+    | .openErr => pure "openerr"
+    | .writeErr => pure "werr"
+    | .outside => pure "outside"
+  | _, _ => none
+
 open Gen.RegistryFacts in
 def handle (op : String) (args : List String) : Option String :=
   match op, args with
@@ -176,6 +268,6 @@ def handle (op : String) (args : List String) : Option String :=
       | some out => pure (String.intercalate ";" (out.map showBytesQuad))
       | none => pure "outside"
     | (_, none) => pure "outside"
-  | _, _ => none
+  | _, _ => handleCfg op args
 
 end RdfModel.Driver.Pipe
